@@ -13,8 +13,14 @@ import warnings
 
 VERIF = os.path.dirname(os.path.dirname(os.path.abspath(__file__)))
 REPO = os.environ.get('VERIF_REPO', '/repo')
-EVIDENCE_DIR = os.path.join(VERIF, 'evidence')
-REPLAY_DIR = os.path.join(VERIF, 'replays')
+if os.path.realpath(REPO) == '/repo':
+    EVIDENCE_DIR = os.path.join(VERIF, 'evidence')
+    REPLAY_DIR = os.path.join(VERIF, 'replays')
+else:
+    # runs against a scratch tree (mutants, the original snapshot) must not
+    # overwrite the evidence of /repo itself
+    EVIDENCE_DIR = os.path.join('/dev/shm', 'verif-alt', 'evidence')
+    REPLAY_DIR = os.path.join('/dev/shm', 'verif-alt', 'replays')
 FINDINGS = os.path.join(VERIF, 'known_findings.json')
 
 
